@@ -15,7 +15,10 @@
  *   the same for A*B, [A,B], {A,B} against PRODUCTS of the Jordan-Wigner matrices of A and B, the canonical anticommutation relations as
  *   polynomial identities, and (A*B)*C == A*(B*C) on selected triples.
  * WHICH strings: see tools/gen_normalorder.py (it writes the //@harness lines between the two GENERATED markers; do not edit them by hand):
- *   quick: every string of length <= 3 over 2 modes, 24 selected strings of length 4; thorough: EVERY string of length <= 4 over 3 modes (1555), ...
+ *   quick: every string of length <= 3 over 2 modes (85), 24 selected strings of length 4; products of all pairs of strings of length <= 1 over 2
+ *          modes + selected longer and two-term operands; commutator/anticommutator of all pairs of single factors over 2 modes; 8 associativity triples;
+ *   thorough: EVERY string of length <= 4 over 3 modes (1555, in batches of <= 36), EVERY string of length 5 over 2 modes (1024), 10 selected strings of
+ *          length 5/6 over 3 modes; products S1*S2 for all S1, S2 of length <= 2 over 2 modes (441); commutators of all 36 pairs of single factors over 3 modes.
  * NOT covered: strings longer than the bound, more than 3 modes, non-integer coefficients (rounding of sums), A *= A / A += A (aliasing),
  * the iteration ORDER of std::map (the model iterates in insertion order), Operator::commutes / operator== on products (ordered comparison).
  */
@@ -246,12 +249,6 @@ static inline void check_string(unsigned long len, unsigned long code, double c,
   double lhs = times_sign(c, jw_melem(&in, bra, ket));
   __CPROVER_assert(lhs == rhs, "C05: c*<bra|S|ket> == sum_k coeff_k*<bra|monomial_k|ket> (Jordan-Wigner)");
 }
-static inline double any_coefficient(void)
-{
-  int ci = nondet_int();
-  __CPROVER_assume(ci != 0 && -CMAX <= ci && ci <= CMAX);      /* choice of the harness input, not a dependency assumption */
-  return (double)ci;
-}
 /* ---- one run = the strings  P L1..Lk : P = the STR_LEN-STR_SUFFIX leading factors given by STR_CODE, followed by EVERY choice of STR_SUFFIX
  * trailing factors over the alphabet {c^+_i, c_i : i < STR_MODES}  (STR_SUFFIX == 0: the single string STR_CODE).  The coefficient, the
  * ket and the bra are symbolic (the same arbitrary values for all strings of a run). */
@@ -272,7 +269,9 @@ static inline void run_strings(void)
 {
   unsigned long ket = nondet_ulong(), bra = nondet_ulong();
   if (ket >= (1UL << NMODES) || bra >= (1UL << NMODES)) return;
-  double c = any_coefficient();
+  int ci = nondet_int();
+  if (ci == 0 || ci < -CMAX || ci > CMAX) return;      /* input domain of the run: non-zero integers up to 2^20 (no __CPROVER_assume) */
+  double c = (double)ci;
 #if STR_SUFFIX == 0
   check_string(STR_LEN, STR_CODE, c, bra, ket);
 #elif STR_SUFFIX == 1
@@ -859,6 +858,134 @@ void h_no_L4_P20_M3(void) { run_strings(); }
 void h_no_L4_P21_M3(void) { run_strings(); }
 //@harness h_no_L4_P22_M3 enforce=none loops=0 unwind=10 props=C05 defs=-DVERIF_FP_IEEE,-DSTR_LEN=4,-DSTR_CODE=0x22,-DSTR_SUFFIX=2,-DSTR_MODES=3,-DMONO_CAP=4UL,-DMAP_CAP=4UL bounded=strings=c2.c2.anyxany_over_3_modes;coefficient=nonzero_integer<=2^20;states=3_modes min_obl=616 reach=1 timeout=450 tier=thorough
 void h_no_L4_P22_M3(void) { run_strings(); }
+//@harness h_no_L5_P888_M2 enforce=none loops=0 unwind=10 props=C05 defs=-DVERIF_FP_IEEE,-DSTR_LEN=5,-DSTR_CODE=0x888,-DSTR_SUFFIX=2,-DSTR_MODES=2,-DMONO_CAP=5UL,-DMAP_CAP=4UL bounded=strings=c+0.c+0.c+0.anyxany_over_2_modes;coefficient=nonzero_integer<=2^20;states=3_modes min_obl=616 reach=1 timeout=450 tier=thorough
+void h_no_L5_P888_M2(void) { run_strings(); }
+//@harness h_no_L5_P889_M2 enforce=none loops=0 unwind=10 props=C05 defs=-DVERIF_FP_IEEE,-DSTR_LEN=5,-DSTR_CODE=0x889,-DSTR_SUFFIX=2,-DSTR_MODES=2,-DMONO_CAP=5UL,-DMAP_CAP=4UL bounded=strings=c+0.c+0.c+1.anyxany_over_2_modes;coefficient=nonzero_integer<=2^20;states=3_modes min_obl=616 reach=1 timeout=450 tier=thorough
+void h_no_L5_P889_M2(void) { run_strings(); }
+//@harness h_no_L5_P880_M2 enforce=none loops=0 unwind=10 props=C05 defs=-DVERIF_FP_IEEE,-DSTR_LEN=5,-DSTR_CODE=0x880,-DSTR_SUFFIX=2,-DSTR_MODES=2,-DMONO_CAP=5UL,-DMAP_CAP=4UL bounded=strings=c+0.c+0.c0.anyxany_over_2_modes;coefficient=nonzero_integer<=2^20;states=3_modes min_obl=616 reach=1 timeout=450 tier=thorough
+void h_no_L5_P880_M2(void) { run_strings(); }
+//@harness h_no_L5_P881_M2 enforce=none loops=0 unwind=10 props=C05 defs=-DVERIF_FP_IEEE,-DSTR_LEN=5,-DSTR_CODE=0x881,-DSTR_SUFFIX=2,-DSTR_MODES=2,-DMONO_CAP=5UL,-DMAP_CAP=4UL bounded=strings=c+0.c+0.c1.anyxany_over_2_modes;coefficient=nonzero_integer<=2^20;states=3_modes min_obl=616 reach=1 timeout=450 tier=thorough
+void h_no_L5_P881_M2(void) { run_strings(); }
+//@harness h_no_L5_P898_M2 enforce=none loops=0 unwind=10 props=C05 defs=-DVERIF_FP_IEEE,-DSTR_LEN=5,-DSTR_CODE=0x898,-DSTR_SUFFIX=2,-DSTR_MODES=2,-DMONO_CAP=5UL,-DMAP_CAP=4UL bounded=strings=c+0.c+1.c+0.anyxany_over_2_modes;coefficient=nonzero_integer<=2^20;states=3_modes min_obl=616 reach=1 timeout=450 tier=thorough
+void h_no_L5_P898_M2(void) { run_strings(); }
+//@harness h_no_L5_P899_M2 enforce=none loops=0 unwind=10 props=C05 defs=-DVERIF_FP_IEEE,-DSTR_LEN=5,-DSTR_CODE=0x899,-DSTR_SUFFIX=2,-DSTR_MODES=2,-DMONO_CAP=5UL,-DMAP_CAP=4UL bounded=strings=c+0.c+1.c+1.anyxany_over_2_modes;coefficient=nonzero_integer<=2^20;states=3_modes min_obl=616 reach=1 timeout=450 tier=thorough
+void h_no_L5_P899_M2(void) { run_strings(); }
+//@harness h_no_L5_P890_M2 enforce=none loops=0 unwind=10 props=C05 defs=-DVERIF_FP_IEEE,-DSTR_LEN=5,-DSTR_CODE=0x890,-DSTR_SUFFIX=2,-DSTR_MODES=2,-DMONO_CAP=5UL,-DMAP_CAP=4UL bounded=strings=c+0.c+1.c0.anyxany_over_2_modes;coefficient=nonzero_integer<=2^20;states=3_modes min_obl=616 reach=1 timeout=450 tier=thorough
+void h_no_L5_P890_M2(void) { run_strings(); }
+//@harness h_no_L5_P891_M2 enforce=none loops=0 unwind=10 props=C05 defs=-DVERIF_FP_IEEE,-DSTR_LEN=5,-DSTR_CODE=0x891,-DSTR_SUFFIX=2,-DSTR_MODES=2,-DMONO_CAP=5UL,-DMAP_CAP=4UL bounded=strings=c+0.c+1.c1.anyxany_over_2_modes;coefficient=nonzero_integer<=2^20;states=3_modes min_obl=616 reach=1 timeout=450 tier=thorough
+void h_no_L5_P891_M2(void) { run_strings(); }
+//@harness h_no_L5_P808_M2 enforce=none loops=0 unwind=10 props=C05 defs=-DVERIF_FP_IEEE,-DSTR_LEN=5,-DSTR_CODE=0x808,-DSTR_SUFFIX=2,-DSTR_MODES=2,-DMONO_CAP=5UL,-DMAP_CAP=4UL bounded=strings=c+0.c0.c+0.anyxany_over_2_modes;coefficient=nonzero_integer<=2^20;states=3_modes min_obl=616 reach=1 timeout=450 tier=thorough
+void h_no_L5_P808_M2(void) { run_strings(); }
+//@harness h_no_L5_P809_M2 enforce=none loops=0 unwind=10 props=C05 defs=-DVERIF_FP_IEEE,-DSTR_LEN=5,-DSTR_CODE=0x809,-DSTR_SUFFIX=2,-DSTR_MODES=2,-DMONO_CAP=5UL,-DMAP_CAP=4UL bounded=strings=c+0.c0.c+1.anyxany_over_2_modes;coefficient=nonzero_integer<=2^20;states=3_modes min_obl=616 reach=1 timeout=450 tier=thorough
+void h_no_L5_P809_M2(void) { run_strings(); }
+//@harness h_no_L5_P800_M2 enforce=none loops=0 unwind=10 props=C05 defs=-DVERIF_FP_IEEE,-DSTR_LEN=5,-DSTR_CODE=0x800,-DSTR_SUFFIX=2,-DSTR_MODES=2,-DMONO_CAP=5UL,-DMAP_CAP=4UL bounded=strings=c+0.c0.c0.anyxany_over_2_modes;coefficient=nonzero_integer<=2^20;states=3_modes min_obl=616 reach=1 timeout=450 tier=thorough
+void h_no_L5_P800_M2(void) { run_strings(); }
+//@harness h_no_L5_P801_M2 enforce=none loops=0 unwind=10 props=C05 defs=-DVERIF_FP_IEEE,-DSTR_LEN=5,-DSTR_CODE=0x801,-DSTR_SUFFIX=2,-DSTR_MODES=2,-DMONO_CAP=5UL,-DMAP_CAP=4UL bounded=strings=c+0.c0.c1.anyxany_over_2_modes;coefficient=nonzero_integer<=2^20;states=3_modes min_obl=616 reach=1 timeout=450 tier=thorough
+void h_no_L5_P801_M2(void) { run_strings(); }
+//@harness h_no_L5_P818_M2 enforce=none loops=0 unwind=10 props=C05 defs=-DVERIF_FP_IEEE,-DSTR_LEN=5,-DSTR_CODE=0x818,-DSTR_SUFFIX=2,-DSTR_MODES=2,-DMONO_CAP=5UL,-DMAP_CAP=4UL bounded=strings=c+0.c1.c+0.anyxany_over_2_modes;coefficient=nonzero_integer<=2^20;states=3_modes min_obl=616 reach=1 timeout=450 tier=thorough
+void h_no_L5_P818_M2(void) { run_strings(); }
+//@harness h_no_L5_P819_M2 enforce=none loops=0 unwind=10 props=C05 defs=-DVERIF_FP_IEEE,-DSTR_LEN=5,-DSTR_CODE=0x819,-DSTR_SUFFIX=2,-DSTR_MODES=2,-DMONO_CAP=5UL,-DMAP_CAP=4UL bounded=strings=c+0.c1.c+1.anyxany_over_2_modes;coefficient=nonzero_integer<=2^20;states=3_modes min_obl=616 reach=1 timeout=450 tier=thorough
+void h_no_L5_P819_M2(void) { run_strings(); }
+//@harness h_no_L5_P810_M2 enforce=none loops=0 unwind=10 props=C05 defs=-DVERIF_FP_IEEE,-DSTR_LEN=5,-DSTR_CODE=0x810,-DSTR_SUFFIX=2,-DSTR_MODES=2,-DMONO_CAP=5UL,-DMAP_CAP=4UL bounded=strings=c+0.c1.c0.anyxany_over_2_modes;coefficient=nonzero_integer<=2^20;states=3_modes min_obl=616 reach=1 timeout=450 tier=thorough
+void h_no_L5_P810_M2(void) { run_strings(); }
+//@harness h_no_L5_P811_M2 enforce=none loops=0 unwind=10 props=C05 defs=-DVERIF_FP_IEEE,-DSTR_LEN=5,-DSTR_CODE=0x811,-DSTR_SUFFIX=2,-DSTR_MODES=2,-DMONO_CAP=5UL,-DMAP_CAP=4UL bounded=strings=c+0.c1.c1.anyxany_over_2_modes;coefficient=nonzero_integer<=2^20;states=3_modes min_obl=616 reach=1 timeout=450 tier=thorough
+void h_no_L5_P811_M2(void) { run_strings(); }
+//@harness h_no_L5_P988_M2 enforce=none loops=0 unwind=10 props=C05 defs=-DVERIF_FP_IEEE,-DSTR_LEN=5,-DSTR_CODE=0x988,-DSTR_SUFFIX=2,-DSTR_MODES=2,-DMONO_CAP=5UL,-DMAP_CAP=4UL bounded=strings=c+1.c+0.c+0.anyxany_over_2_modes;coefficient=nonzero_integer<=2^20;states=3_modes min_obl=616 reach=1 timeout=450 tier=thorough
+void h_no_L5_P988_M2(void) { run_strings(); }
+//@harness h_no_L5_P989_M2 enforce=none loops=0 unwind=10 props=C05 defs=-DVERIF_FP_IEEE,-DSTR_LEN=5,-DSTR_CODE=0x989,-DSTR_SUFFIX=2,-DSTR_MODES=2,-DMONO_CAP=5UL,-DMAP_CAP=4UL bounded=strings=c+1.c+0.c+1.anyxany_over_2_modes;coefficient=nonzero_integer<=2^20;states=3_modes min_obl=616 reach=1 timeout=450 tier=thorough
+void h_no_L5_P989_M2(void) { run_strings(); }
+//@harness h_no_L5_P980_M2 enforce=none loops=0 unwind=10 props=C05 defs=-DVERIF_FP_IEEE,-DSTR_LEN=5,-DSTR_CODE=0x980,-DSTR_SUFFIX=2,-DSTR_MODES=2,-DMONO_CAP=5UL,-DMAP_CAP=4UL bounded=strings=c+1.c+0.c0.anyxany_over_2_modes;coefficient=nonzero_integer<=2^20;states=3_modes min_obl=616 reach=1 timeout=450 tier=thorough
+void h_no_L5_P980_M2(void) { run_strings(); }
+//@harness h_no_L5_P981_M2 enforce=none loops=0 unwind=10 props=C05 defs=-DVERIF_FP_IEEE,-DSTR_LEN=5,-DSTR_CODE=0x981,-DSTR_SUFFIX=2,-DSTR_MODES=2,-DMONO_CAP=5UL,-DMAP_CAP=4UL bounded=strings=c+1.c+0.c1.anyxany_over_2_modes;coefficient=nonzero_integer<=2^20;states=3_modes min_obl=616 reach=1 timeout=450 tier=thorough
+void h_no_L5_P981_M2(void) { run_strings(); }
+//@harness h_no_L5_P998_M2 enforce=none loops=0 unwind=10 props=C05 defs=-DVERIF_FP_IEEE,-DSTR_LEN=5,-DSTR_CODE=0x998,-DSTR_SUFFIX=2,-DSTR_MODES=2,-DMONO_CAP=5UL,-DMAP_CAP=4UL bounded=strings=c+1.c+1.c+0.anyxany_over_2_modes;coefficient=nonzero_integer<=2^20;states=3_modes min_obl=616 reach=1 timeout=450 tier=thorough
+void h_no_L5_P998_M2(void) { run_strings(); }
+//@harness h_no_L5_P999_M2 enforce=none loops=0 unwind=10 props=C05 defs=-DVERIF_FP_IEEE,-DSTR_LEN=5,-DSTR_CODE=0x999,-DSTR_SUFFIX=2,-DSTR_MODES=2,-DMONO_CAP=5UL,-DMAP_CAP=4UL bounded=strings=c+1.c+1.c+1.anyxany_over_2_modes;coefficient=nonzero_integer<=2^20;states=3_modes min_obl=616 reach=1 timeout=450 tier=thorough
+void h_no_L5_P999_M2(void) { run_strings(); }
+//@harness h_no_L5_P990_M2 enforce=none loops=0 unwind=10 props=C05 defs=-DVERIF_FP_IEEE,-DSTR_LEN=5,-DSTR_CODE=0x990,-DSTR_SUFFIX=2,-DSTR_MODES=2,-DMONO_CAP=5UL,-DMAP_CAP=4UL bounded=strings=c+1.c+1.c0.anyxany_over_2_modes;coefficient=nonzero_integer<=2^20;states=3_modes min_obl=616 reach=1 timeout=450 tier=thorough
+void h_no_L5_P990_M2(void) { run_strings(); }
+//@harness h_no_L5_P991_M2 enforce=none loops=0 unwind=10 props=C05 defs=-DVERIF_FP_IEEE,-DSTR_LEN=5,-DSTR_CODE=0x991,-DSTR_SUFFIX=2,-DSTR_MODES=2,-DMONO_CAP=5UL,-DMAP_CAP=4UL bounded=strings=c+1.c+1.c1.anyxany_over_2_modes;coefficient=nonzero_integer<=2^20;states=3_modes min_obl=616 reach=1 timeout=450 tier=thorough
+void h_no_L5_P991_M2(void) { run_strings(); }
+//@harness h_no_L5_P908_M2 enforce=none loops=0 unwind=10 props=C05 defs=-DVERIF_FP_IEEE,-DSTR_LEN=5,-DSTR_CODE=0x908,-DSTR_SUFFIX=2,-DSTR_MODES=2,-DMONO_CAP=5UL,-DMAP_CAP=4UL bounded=strings=c+1.c0.c+0.anyxany_over_2_modes;coefficient=nonzero_integer<=2^20;states=3_modes min_obl=616 reach=1 timeout=450 tier=thorough
+void h_no_L5_P908_M2(void) { run_strings(); }
+//@harness h_no_L5_P909_M2 enforce=none loops=0 unwind=10 props=C05 defs=-DVERIF_FP_IEEE,-DSTR_LEN=5,-DSTR_CODE=0x909,-DSTR_SUFFIX=2,-DSTR_MODES=2,-DMONO_CAP=5UL,-DMAP_CAP=4UL bounded=strings=c+1.c0.c+1.anyxany_over_2_modes;coefficient=nonzero_integer<=2^20;states=3_modes min_obl=616 reach=1 timeout=450 tier=thorough
+void h_no_L5_P909_M2(void) { run_strings(); }
+//@harness h_no_L5_P900_M2 enforce=none loops=0 unwind=10 props=C05 defs=-DVERIF_FP_IEEE,-DSTR_LEN=5,-DSTR_CODE=0x900,-DSTR_SUFFIX=2,-DSTR_MODES=2,-DMONO_CAP=5UL,-DMAP_CAP=4UL bounded=strings=c+1.c0.c0.anyxany_over_2_modes;coefficient=nonzero_integer<=2^20;states=3_modes min_obl=616 reach=1 timeout=450 tier=thorough
+void h_no_L5_P900_M2(void) { run_strings(); }
+//@harness h_no_L5_P901_M2 enforce=none loops=0 unwind=10 props=C05 defs=-DVERIF_FP_IEEE,-DSTR_LEN=5,-DSTR_CODE=0x901,-DSTR_SUFFIX=2,-DSTR_MODES=2,-DMONO_CAP=5UL,-DMAP_CAP=4UL bounded=strings=c+1.c0.c1.anyxany_over_2_modes;coefficient=nonzero_integer<=2^20;states=3_modes min_obl=616 reach=1 timeout=450 tier=thorough
+void h_no_L5_P901_M2(void) { run_strings(); }
+//@harness h_no_L5_P918_M2 enforce=none loops=0 unwind=10 props=C05 defs=-DVERIF_FP_IEEE,-DSTR_LEN=5,-DSTR_CODE=0x918,-DSTR_SUFFIX=2,-DSTR_MODES=2,-DMONO_CAP=5UL,-DMAP_CAP=4UL bounded=strings=c+1.c1.c+0.anyxany_over_2_modes;coefficient=nonzero_integer<=2^20;states=3_modes min_obl=616 reach=1 timeout=450 tier=thorough
+void h_no_L5_P918_M2(void) { run_strings(); }
+//@harness h_no_L5_P919_M2 enforce=none loops=0 unwind=10 props=C05 defs=-DVERIF_FP_IEEE,-DSTR_LEN=5,-DSTR_CODE=0x919,-DSTR_SUFFIX=2,-DSTR_MODES=2,-DMONO_CAP=5UL,-DMAP_CAP=4UL bounded=strings=c+1.c1.c+1.anyxany_over_2_modes;coefficient=nonzero_integer<=2^20;states=3_modes min_obl=616 reach=1 timeout=450 tier=thorough
+void h_no_L5_P919_M2(void) { run_strings(); }
+//@harness h_no_L5_P910_M2 enforce=none loops=0 unwind=10 props=C05 defs=-DVERIF_FP_IEEE,-DSTR_LEN=5,-DSTR_CODE=0x910,-DSTR_SUFFIX=2,-DSTR_MODES=2,-DMONO_CAP=5UL,-DMAP_CAP=4UL bounded=strings=c+1.c1.c0.anyxany_over_2_modes;coefficient=nonzero_integer<=2^20;states=3_modes min_obl=616 reach=1 timeout=450 tier=thorough
+void h_no_L5_P910_M2(void) { run_strings(); }
+//@harness h_no_L5_P911_M2 enforce=none loops=0 unwind=10 props=C05 defs=-DVERIF_FP_IEEE,-DSTR_LEN=5,-DSTR_CODE=0x911,-DSTR_SUFFIX=2,-DSTR_MODES=2,-DMONO_CAP=5UL,-DMAP_CAP=4UL bounded=strings=c+1.c1.c1.anyxany_over_2_modes;coefficient=nonzero_integer<=2^20;states=3_modes min_obl=616 reach=1 timeout=450 tier=thorough
+void h_no_L5_P911_M2(void) { run_strings(); }
+//@harness h_no_L5_P088_M2 enforce=none loops=0 unwind=10 props=C05 defs=-DVERIF_FP_IEEE,-DSTR_LEN=5,-DSTR_CODE=0x088,-DSTR_SUFFIX=2,-DSTR_MODES=2,-DMONO_CAP=5UL,-DMAP_CAP=4UL bounded=strings=c0.c+0.c+0.anyxany_over_2_modes;coefficient=nonzero_integer<=2^20;states=3_modes min_obl=616 reach=1 timeout=450 tier=thorough
+void h_no_L5_P088_M2(void) { run_strings(); }
+//@harness h_no_L5_P089_M2 enforce=none loops=0 unwind=10 props=C05 defs=-DVERIF_FP_IEEE,-DSTR_LEN=5,-DSTR_CODE=0x089,-DSTR_SUFFIX=2,-DSTR_MODES=2,-DMONO_CAP=5UL,-DMAP_CAP=4UL bounded=strings=c0.c+0.c+1.anyxany_over_2_modes;coefficient=nonzero_integer<=2^20;states=3_modes min_obl=616 reach=1 timeout=450 tier=thorough
+void h_no_L5_P089_M2(void) { run_strings(); }
+//@harness h_no_L5_P080_M2 enforce=none loops=0 unwind=10 props=C05 defs=-DVERIF_FP_IEEE,-DSTR_LEN=5,-DSTR_CODE=0x080,-DSTR_SUFFIX=2,-DSTR_MODES=2,-DMONO_CAP=5UL,-DMAP_CAP=4UL bounded=strings=c0.c+0.c0.anyxany_over_2_modes;coefficient=nonzero_integer<=2^20;states=3_modes min_obl=616 reach=1 timeout=450 tier=thorough
+void h_no_L5_P080_M2(void) { run_strings(); }
+//@harness h_no_L5_P081_M2 enforce=none loops=0 unwind=10 props=C05 defs=-DVERIF_FP_IEEE,-DSTR_LEN=5,-DSTR_CODE=0x081,-DSTR_SUFFIX=2,-DSTR_MODES=2,-DMONO_CAP=5UL,-DMAP_CAP=4UL bounded=strings=c0.c+0.c1.anyxany_over_2_modes;coefficient=nonzero_integer<=2^20;states=3_modes min_obl=616 reach=1 timeout=450 tier=thorough
+void h_no_L5_P081_M2(void) { run_strings(); }
+//@harness h_no_L5_P098_M2 enforce=none loops=0 unwind=10 props=C05 defs=-DVERIF_FP_IEEE,-DSTR_LEN=5,-DSTR_CODE=0x098,-DSTR_SUFFIX=2,-DSTR_MODES=2,-DMONO_CAP=5UL,-DMAP_CAP=4UL bounded=strings=c0.c+1.c+0.anyxany_over_2_modes;coefficient=nonzero_integer<=2^20;states=3_modes min_obl=616 reach=1 timeout=450 tier=thorough
+void h_no_L5_P098_M2(void) { run_strings(); }
+//@harness h_no_L5_P099_M2 enforce=none loops=0 unwind=10 props=C05 defs=-DVERIF_FP_IEEE,-DSTR_LEN=5,-DSTR_CODE=0x099,-DSTR_SUFFIX=2,-DSTR_MODES=2,-DMONO_CAP=5UL,-DMAP_CAP=4UL bounded=strings=c0.c+1.c+1.anyxany_over_2_modes;coefficient=nonzero_integer<=2^20;states=3_modes min_obl=616 reach=1 timeout=450 tier=thorough
+void h_no_L5_P099_M2(void) { run_strings(); }
+//@harness h_no_L5_P090_M2 enforce=none loops=0 unwind=10 props=C05 defs=-DVERIF_FP_IEEE,-DSTR_LEN=5,-DSTR_CODE=0x090,-DSTR_SUFFIX=2,-DSTR_MODES=2,-DMONO_CAP=5UL,-DMAP_CAP=4UL bounded=strings=c0.c+1.c0.anyxany_over_2_modes;coefficient=nonzero_integer<=2^20;states=3_modes min_obl=616 reach=1 timeout=450 tier=thorough
+void h_no_L5_P090_M2(void) { run_strings(); }
+//@harness h_no_L5_P091_M2 enforce=none loops=0 unwind=10 props=C05 defs=-DVERIF_FP_IEEE,-DSTR_LEN=5,-DSTR_CODE=0x091,-DSTR_SUFFIX=2,-DSTR_MODES=2,-DMONO_CAP=5UL,-DMAP_CAP=4UL bounded=strings=c0.c+1.c1.anyxany_over_2_modes;coefficient=nonzero_integer<=2^20;states=3_modes min_obl=616 reach=1 timeout=450 tier=thorough
+void h_no_L5_P091_M2(void) { run_strings(); }
+//@harness h_no_L5_P008_M2 enforce=none loops=0 unwind=10 props=C05 defs=-DVERIF_FP_IEEE,-DSTR_LEN=5,-DSTR_CODE=0x008,-DSTR_SUFFIX=2,-DSTR_MODES=2,-DMONO_CAP=5UL,-DMAP_CAP=4UL bounded=strings=c0.c0.c+0.anyxany_over_2_modes;coefficient=nonzero_integer<=2^20;states=3_modes min_obl=616 reach=1 timeout=450 tier=thorough
+void h_no_L5_P008_M2(void) { run_strings(); }
+//@harness h_no_L5_P009_M2 enforce=none loops=0 unwind=10 props=C05 defs=-DVERIF_FP_IEEE,-DSTR_LEN=5,-DSTR_CODE=0x009,-DSTR_SUFFIX=2,-DSTR_MODES=2,-DMONO_CAP=5UL,-DMAP_CAP=4UL bounded=strings=c0.c0.c+1.anyxany_over_2_modes;coefficient=nonzero_integer<=2^20;states=3_modes min_obl=616 reach=1 timeout=450 tier=thorough
+void h_no_L5_P009_M2(void) { run_strings(); }
+//@harness h_no_L5_P000_M2 enforce=none loops=0 unwind=10 props=C05 defs=-DVERIF_FP_IEEE,-DSTR_LEN=5,-DSTR_CODE=0x000,-DSTR_SUFFIX=2,-DSTR_MODES=2,-DMONO_CAP=5UL,-DMAP_CAP=4UL bounded=strings=c0.c0.c0.anyxany_over_2_modes;coefficient=nonzero_integer<=2^20;states=3_modes min_obl=616 reach=1 timeout=450 tier=thorough
+void h_no_L5_P000_M2(void) { run_strings(); }
+//@harness h_no_L5_P001_M2 enforce=none loops=0 unwind=10 props=C05 defs=-DVERIF_FP_IEEE,-DSTR_LEN=5,-DSTR_CODE=0x001,-DSTR_SUFFIX=2,-DSTR_MODES=2,-DMONO_CAP=5UL,-DMAP_CAP=4UL bounded=strings=c0.c0.c1.anyxany_over_2_modes;coefficient=nonzero_integer<=2^20;states=3_modes min_obl=616 reach=1 timeout=450 tier=thorough
+void h_no_L5_P001_M2(void) { run_strings(); }
+//@harness h_no_L5_P018_M2 enforce=none loops=0 unwind=10 props=C05 defs=-DVERIF_FP_IEEE,-DSTR_LEN=5,-DSTR_CODE=0x018,-DSTR_SUFFIX=2,-DSTR_MODES=2,-DMONO_CAP=5UL,-DMAP_CAP=4UL bounded=strings=c0.c1.c+0.anyxany_over_2_modes;coefficient=nonzero_integer<=2^20;states=3_modes min_obl=616 reach=1 timeout=450 tier=thorough
+void h_no_L5_P018_M2(void) { run_strings(); }
+//@harness h_no_L5_P019_M2 enforce=none loops=0 unwind=10 props=C05 defs=-DVERIF_FP_IEEE,-DSTR_LEN=5,-DSTR_CODE=0x019,-DSTR_SUFFIX=2,-DSTR_MODES=2,-DMONO_CAP=5UL,-DMAP_CAP=4UL bounded=strings=c0.c1.c+1.anyxany_over_2_modes;coefficient=nonzero_integer<=2^20;states=3_modes min_obl=616 reach=1 timeout=450 tier=thorough
+void h_no_L5_P019_M2(void) { run_strings(); }
+//@harness h_no_L5_P010_M2 enforce=none loops=0 unwind=10 props=C05 defs=-DVERIF_FP_IEEE,-DSTR_LEN=5,-DSTR_CODE=0x010,-DSTR_SUFFIX=2,-DSTR_MODES=2,-DMONO_CAP=5UL,-DMAP_CAP=4UL bounded=strings=c0.c1.c0.anyxany_over_2_modes;coefficient=nonzero_integer<=2^20;states=3_modes min_obl=616 reach=1 timeout=450 tier=thorough
+void h_no_L5_P010_M2(void) { run_strings(); }
+//@harness h_no_L5_P011_M2 enforce=none loops=0 unwind=10 props=C05 defs=-DVERIF_FP_IEEE,-DSTR_LEN=5,-DSTR_CODE=0x011,-DSTR_SUFFIX=2,-DSTR_MODES=2,-DMONO_CAP=5UL,-DMAP_CAP=4UL bounded=strings=c0.c1.c1.anyxany_over_2_modes;coefficient=nonzero_integer<=2^20;states=3_modes min_obl=616 reach=1 timeout=450 tier=thorough
+void h_no_L5_P011_M2(void) { run_strings(); }
+//@harness h_no_L5_P188_M2 enforce=none loops=0 unwind=10 props=C05 defs=-DVERIF_FP_IEEE,-DSTR_LEN=5,-DSTR_CODE=0x188,-DSTR_SUFFIX=2,-DSTR_MODES=2,-DMONO_CAP=5UL,-DMAP_CAP=4UL bounded=strings=c1.c+0.c+0.anyxany_over_2_modes;coefficient=nonzero_integer<=2^20;states=3_modes min_obl=616 reach=1 timeout=450 tier=thorough
+void h_no_L5_P188_M2(void) { run_strings(); }
+//@harness h_no_L5_P189_M2 enforce=none loops=0 unwind=10 props=C05 defs=-DVERIF_FP_IEEE,-DSTR_LEN=5,-DSTR_CODE=0x189,-DSTR_SUFFIX=2,-DSTR_MODES=2,-DMONO_CAP=5UL,-DMAP_CAP=4UL bounded=strings=c1.c+0.c+1.anyxany_over_2_modes;coefficient=nonzero_integer<=2^20;states=3_modes min_obl=616 reach=1 timeout=450 tier=thorough
+void h_no_L5_P189_M2(void) { run_strings(); }
+//@harness h_no_L5_P180_M2 enforce=none loops=0 unwind=10 props=C05 defs=-DVERIF_FP_IEEE,-DSTR_LEN=5,-DSTR_CODE=0x180,-DSTR_SUFFIX=2,-DSTR_MODES=2,-DMONO_CAP=5UL,-DMAP_CAP=4UL bounded=strings=c1.c+0.c0.anyxany_over_2_modes;coefficient=nonzero_integer<=2^20;states=3_modes min_obl=616 reach=1 timeout=450 tier=thorough
+void h_no_L5_P180_M2(void) { run_strings(); }
+//@harness h_no_L5_P181_M2 enforce=none loops=0 unwind=10 props=C05 defs=-DVERIF_FP_IEEE,-DSTR_LEN=5,-DSTR_CODE=0x181,-DSTR_SUFFIX=2,-DSTR_MODES=2,-DMONO_CAP=5UL,-DMAP_CAP=4UL bounded=strings=c1.c+0.c1.anyxany_over_2_modes;coefficient=nonzero_integer<=2^20;states=3_modes min_obl=616 reach=1 timeout=450 tier=thorough
+void h_no_L5_P181_M2(void) { run_strings(); }
+//@harness h_no_L5_P198_M2 enforce=none loops=0 unwind=10 props=C05 defs=-DVERIF_FP_IEEE,-DSTR_LEN=5,-DSTR_CODE=0x198,-DSTR_SUFFIX=2,-DSTR_MODES=2,-DMONO_CAP=5UL,-DMAP_CAP=4UL bounded=strings=c1.c+1.c+0.anyxany_over_2_modes;coefficient=nonzero_integer<=2^20;states=3_modes min_obl=616 reach=1 timeout=450 tier=thorough
+void h_no_L5_P198_M2(void) { run_strings(); }
+//@harness h_no_L5_P199_M2 enforce=none loops=0 unwind=10 props=C05 defs=-DVERIF_FP_IEEE,-DSTR_LEN=5,-DSTR_CODE=0x199,-DSTR_SUFFIX=2,-DSTR_MODES=2,-DMONO_CAP=5UL,-DMAP_CAP=4UL bounded=strings=c1.c+1.c+1.anyxany_over_2_modes;coefficient=nonzero_integer<=2^20;states=3_modes min_obl=616 reach=1 timeout=450 tier=thorough
+void h_no_L5_P199_M2(void) { run_strings(); }
+//@harness h_no_L5_P190_M2 enforce=none loops=0 unwind=10 props=C05 defs=-DVERIF_FP_IEEE,-DSTR_LEN=5,-DSTR_CODE=0x190,-DSTR_SUFFIX=2,-DSTR_MODES=2,-DMONO_CAP=5UL,-DMAP_CAP=4UL bounded=strings=c1.c+1.c0.anyxany_over_2_modes;coefficient=nonzero_integer<=2^20;states=3_modes min_obl=616 reach=1 timeout=450 tier=thorough
+void h_no_L5_P190_M2(void) { run_strings(); }
+//@harness h_no_L5_P191_M2 enforce=none loops=0 unwind=10 props=C05 defs=-DVERIF_FP_IEEE,-DSTR_LEN=5,-DSTR_CODE=0x191,-DSTR_SUFFIX=2,-DSTR_MODES=2,-DMONO_CAP=5UL,-DMAP_CAP=4UL bounded=strings=c1.c+1.c1.anyxany_over_2_modes;coefficient=nonzero_integer<=2^20;states=3_modes min_obl=616 reach=1 timeout=450 tier=thorough
+void h_no_L5_P191_M2(void) { run_strings(); }
+//@harness h_no_L5_P108_M2 enforce=none loops=0 unwind=10 props=C05 defs=-DVERIF_FP_IEEE,-DSTR_LEN=5,-DSTR_CODE=0x108,-DSTR_SUFFIX=2,-DSTR_MODES=2,-DMONO_CAP=5UL,-DMAP_CAP=4UL bounded=strings=c1.c0.c+0.anyxany_over_2_modes;coefficient=nonzero_integer<=2^20;states=3_modes min_obl=616 reach=1 timeout=450 tier=thorough
+void h_no_L5_P108_M2(void) { run_strings(); }
+//@harness h_no_L5_P109_M2 enforce=none loops=0 unwind=10 props=C05 defs=-DVERIF_FP_IEEE,-DSTR_LEN=5,-DSTR_CODE=0x109,-DSTR_SUFFIX=2,-DSTR_MODES=2,-DMONO_CAP=5UL,-DMAP_CAP=4UL bounded=strings=c1.c0.c+1.anyxany_over_2_modes;coefficient=nonzero_integer<=2^20;states=3_modes min_obl=616 reach=1 timeout=450 tier=thorough
+void h_no_L5_P109_M2(void) { run_strings(); }
+//@harness h_no_L5_P100_M2 enforce=none loops=0 unwind=10 props=C05 defs=-DVERIF_FP_IEEE,-DSTR_LEN=5,-DSTR_CODE=0x100,-DSTR_SUFFIX=2,-DSTR_MODES=2,-DMONO_CAP=5UL,-DMAP_CAP=4UL bounded=strings=c1.c0.c0.anyxany_over_2_modes;coefficient=nonzero_integer<=2^20;states=3_modes min_obl=616 reach=1 timeout=450 tier=thorough
+void h_no_L5_P100_M2(void) { run_strings(); }
+//@harness h_no_L5_P101_M2 enforce=none loops=0 unwind=10 props=C05 defs=-DVERIF_FP_IEEE,-DSTR_LEN=5,-DSTR_CODE=0x101,-DSTR_SUFFIX=2,-DSTR_MODES=2,-DMONO_CAP=5UL,-DMAP_CAP=4UL bounded=strings=c1.c0.c1.anyxany_over_2_modes;coefficient=nonzero_integer<=2^20;states=3_modes min_obl=616 reach=1 timeout=450 tier=thorough
+void h_no_L5_P101_M2(void) { run_strings(); }
+//@harness h_no_L5_P118_M2 enforce=none loops=0 unwind=10 props=C05 defs=-DVERIF_FP_IEEE,-DSTR_LEN=5,-DSTR_CODE=0x118,-DSTR_SUFFIX=2,-DSTR_MODES=2,-DMONO_CAP=5UL,-DMAP_CAP=4UL bounded=strings=c1.c1.c+0.anyxany_over_2_modes;coefficient=nonzero_integer<=2^20;states=3_modes min_obl=616 reach=1 timeout=450 tier=thorough
+void h_no_L5_P118_M2(void) { run_strings(); }
+//@harness h_no_L5_P119_M2 enforce=none loops=0 unwind=10 props=C05 defs=-DVERIF_FP_IEEE,-DSTR_LEN=5,-DSTR_CODE=0x119,-DSTR_SUFFIX=2,-DSTR_MODES=2,-DMONO_CAP=5UL,-DMAP_CAP=4UL bounded=strings=c1.c1.c+1.anyxany_over_2_modes;coefficient=nonzero_integer<=2^20;states=3_modes min_obl=616 reach=1 timeout=450 tier=thorough
+void h_no_L5_P119_M2(void) { run_strings(); }
+//@harness h_no_L5_P110_M2 enforce=none loops=0 unwind=10 props=C05 defs=-DVERIF_FP_IEEE,-DSTR_LEN=5,-DSTR_CODE=0x110,-DSTR_SUFFIX=2,-DSTR_MODES=2,-DMONO_CAP=5UL,-DMAP_CAP=4UL bounded=strings=c1.c1.c0.anyxany_over_2_modes;coefficient=nonzero_integer<=2^20;states=3_modes min_obl=616 reach=1 timeout=450 tier=thorough
+void h_no_L5_P110_M2(void) { run_strings(); }
+//@harness h_no_L5_P111_M2 enforce=none loops=0 unwind=10 props=C05 defs=-DVERIF_FP_IEEE,-DSTR_LEN=5,-DSTR_CODE=0x111,-DSTR_SUFFIX=2,-DSTR_MODES=2,-DMONO_CAP=5UL,-DMAP_CAP=4UL bounded=strings=c1.c1.c1.anyxany_over_2_modes;coefficient=nonzero_integer<=2^20;states=3_modes min_obl=616 reach=1 timeout=450 tier=thorough
+void h_no_L5_P111_M2(void) { run_strings(); }
 //@harness h_no_L6_210A98 enforce=none loops=0 unwind=10 props=C05 defs=-DVERIF_FP_IEEE,-DSTR_LEN=6,-DSTR_CODE=0x210A98,-DMONO_CAP=6UL,-DMAP_CAP=8UL bounded=string=c2.c1.c0.c+2.c+1.c+0;coefficient=nonzero_integer<=2^20;states=3_modes min_obl=616 reach=1 timeout=300 tier=thorough
 void h_no_L6_210A98(void) { run_strings(); }
 //@harness h_no_L6_8091A2 enforce=none loops=0 unwind=10 props=C05 defs=-DVERIF_FP_IEEE,-DSTR_LEN=6,-DSTR_CODE=0x8091A2,-DMONO_CAP=6UL,-DMAP_CAP=8UL bounded=string=c+0.c0.c+1.c1.c+2.c2;coefficient=nonzero_integer<=2^20;states=3_modes min_obl=616 reach=1 timeout=300 tier=thorough
